@@ -14,7 +14,7 @@ EXPLANATION = (
     "raw derefs, union field accesses, transmutes) is matched to the rule for its kind and that rule's obligation is "
     "checked at the site: typestate before transmute_into_vec (R1), dominating positivity guard before new_value (R2), "
     "union access confined to `mod entry` (R3), lifetime-only transmutes whose owner is never mutated/moved/cloned "
-    "after construction (R4), the decoder scratch buffer cleared on every path and touched by nobody else, no "
+    "after construction, and every argument a producing function ties to its output lifetime (`fn f<'a>(x: &'a X) -> Vec<Obj<'a>>`) refers to a value stored in that struct too — not to a local of the constructor (R4), the decoder scratch buffer cleared on every path and touched by nobody else, no "
     "re-entrancy (R5), new_unchecked fed by a clamp with positive lower bound (R6); count<=len of copy_slice and the "
     "Vec<StrainsEntry>/Vec<f64> layout are recorded as ASSUMED (R7/R8). An unsafe operation of a kind with no rule is "
     "reported. Compiler-generated unsafe (Box deref lowering, derives, format_args) is counted, not judged.")
@@ -374,6 +374,63 @@ def r4_owner(ctx, F, cg, ext_fn, where):
     ctx.require(bool(owners), 'C11-R4', key + ':same-struct', '%s { %s: extend_lifetime(..), %s: <owner> } — referrer and owner are stored '
                 'in the same struct value' % (S.split('::')[-1], ref_field, ', '.join(owners)), cfn.where(),
                 bad='the value passed through extend_lifetime in %s does not borrow from any other field of the same %s literal' % (cfn.path, S))
+    # every borrow source of the extended value is an owner: a local function on the way to the transmuted value whose signature ties an input
+    # lifetime to its output (`fn f<'a>(x: &'a X, ..) -> Vec<Obj<'a>>`) lets the result borrow from that argument — which must then live in S too
+    import re as _re
+    owner_cores = [prov.strip(lit[4][f]) for f in owners]
+    srcs = []          # (producer fn, input index, input type, referent tree)
+
+    def lifetimes(t):
+        return set(_re.findall(r"'[a-z_][a-z0-9_]*", t or '')) - {"'static"}
+
+    def trace(v, via, depth=0):
+        """v is (a view of) something the extended value borrows from: follow views to their referents"""
+        v = prov.strip(v, names={'clone'})
+        if depth > 8:
+            srcs.append(via + (v,))
+            return
+        if v[0] == 'call':
+            g = F.fn(v[1].get('path') or '') if v[1].get('local') else None
+            if g is not None and g.j.get('inputs'):
+                outl = lifetimes((g.j.get('output') or {}).get('s'))
+                tied = [i for i, inp in enumerate(g.j['inputs']) if i < len(v[2]) and (lifetimes(inp.get('s')) & outl or ("'_" in outl and inp.get('k') in ('ref', 'refmut')))]
+                if outl and tied:
+                    for i in tied:
+                        trace(v[2][i], (g, i, g.j['inputs'][i].get('s')), depth + 1)
+                    return
+                srcs.append(via + (v,))          # an owned result: this is the referent
+                return
+            if g is None and not v[1].get('local'):
+                # std adaptor (iter_mut, into_boxed_slice, deref_mut ..): a view of / container made from its arguments
+                args = [x for x in v[2] if prov.strip(x)[0] not in ('const',) and not (prov.strip(x)[0] == 'agg' and prov.strip(x)[1] == 'closure')]
+                if args:
+                    for x in args:
+                        trace(x, via, depth + 1)
+                    return
+        srcs.append(via + (v,))
+
+    ext_calls = [n for n in ref_tree_nodes if n[0] == 'call' and prov.callee(n) == ext_fn.path]
+    for n in ext_calls[:1]:
+        trace(n[2][0], (ext_fn, 0, 'the transmuted value'))
+    nsrc = 0
+    seen_keys = set()
+    for g, i, ty, ref in srcs:
+        if prov.strip(ref)[0] == 'const':
+            continue
+        k2 = '%s:borrow-source:%s:%d' % (key, g.name, i + 1)
+        if g is ext_fn:
+            continue                          # the value itself is built in place (no borrowing producer): nothing to hold
+        nsrc += 1
+        held = any(x == c for x in prov.walk(ref, limit=400) for c in owner_cores)
+        if k2 in seen_keys and held:
+            continue
+        seen_keys.add(k2)
+        ctx.require(held, 'C11-R4', k2,
+                    '%s argument %d (%s) — a borrow source of the lifetime-extended value — lives in a field of %s' % (g.name, i + 1, ty, S.split('::')[-1]), cfn.where(),
+                    bad='%s: the value passed through extend_lifetime is produced by %s, whose result borrows from argument %d (%s) for its output lifetime; that argument refers to `%s`, '
+                        'a local of %s and not a field of the returned %s: the references dangle as soon as the constructor returns' % (
+                            cfn.path, g.path, i + 1, ty, prov.show(ref, maxdepth=3)[:80], cfn.name, S.split('::')[-1]))
+    ctx.floor('C11-R4', nsrc, 1, 'borrow sources of the lifetime-extended value (%s)' % key.split('::')[-1])
     # post-construction API of S: methods with a self parameter
     api = [f for f in F.fns if f.self_adt == S and f.kind == 'AssocFn' and f.j.get('inputs') and S in f.j['inputs'][0]['s']]
     api_paths = {f.path for f in api}
